@@ -47,12 +47,14 @@ theorem C10_positions (l : Loc) (decos kids : List Node) :
 
 /-- what the current source does (re-extracted on every run): append for `def`, insert(0) for
     `class`, copy_location on both, insertion before the first non-prologue statement, no visitor
-    for `AsyncFunctionDef` / `Lambda` -/
+    for `AsyncFunctionDef` / `Lambda`; the decorator text looks the typechecker up under the key the table is filled
+    under, in a table that is a plain dict on the class and never pruned (definitions nested in functions look it up
+    every time the enclosing function runs) -/
 theorem C10_generated_good :
     Generated.hookDefDecorator = "append" ∧ Generated.hookClassDecorator = "insert0" ∧
     Generated.hookCopiesLocation = true ∧ Generated.hookImportRule = "before-first-non-prologue" ∧
     Generated.hookVisitors = ["visit_ClassDef", "visit_FunctionDef", "visit_Module"] ∧
-    Generated.hookCompileIsolated = true := by decide
+    Generated.hookCompileIsolated = true ∧ Generated.hookKeyChain = "md5-everywhere" := by decide
 
 /-! non-vacuity -/
 private def L (n : Nat) : Loc := ⟨n, 0, n, 9⟩
